@@ -162,6 +162,14 @@ static void predirty(ST::conversion_result &r)
     }
 }
 
+// whatever an unrelated earlier C library call left in errno must not influence a conversion
+static int stale_errno()
+{
+    static unsigned n = 0;
+    static const int vals[] = {0, EINVAL, ERANGE, ENOENT, EDOM};
+    return vals[n++ % 5];
+}
+
 static void parse_case(const S &text)
 {
     vrt::cur_rewind();
@@ -176,6 +184,7 @@ static void parse_case(const S &text)
         if (empty) want = 0;
         ST::conversion_result r;
         predirty(r);
+        errno = stale_errno();
         double got = st->to_double(r), got2 = st->to_double();
         vrt::evals(2);
         if (memcmp(&got, &want, 8) != 0 || r.ok() != wok || r.full_match() != wfull)
@@ -191,6 +200,7 @@ static void parse_case(const S &text)
         if (empty) want = 0;
         ST::conversion_result r;
         predirty(r);
+        errno = stale_errno();
         float got = st->to_float(r), got2 = st->to_float();
         vrt::evals(2);
         if (memcmp(&got, &want, 4) != 0 || r.ok() != wok || r.full_match() != wfull)
